@@ -30,9 +30,9 @@ MANIFEST = {
 
 PLAN = {
     # tier: (mc cfgs, tlc scenarios per kind, generated per kind, hammer (readers, logged ops, appends, free ops))
-    # ... , append hammers (count, rounds, max concurrent appenders), held-fetch scenarios per kind)
-    "quick": (["MC_Explorer_sets_quick.cfg", "MC_Explorer_appenders_quick.cfg", "MC_Explorer_push_quick.cfg"], 25, 60, (4, 40, 6, 1500), (2, 25, 8), 8),
-    "thorough": (["MC_Explorer_sets_thorough.cfg", "MC_Explorer_push_thorough.cfg", "MC_Explorer_push2_thorough.cfg"], 150, 1200, (6, 120, 12, 20000), (8, 60, 8), 60),
+    # ... , append hammers (count, rounds, max concurrent appenders), held-fetch scenarios per kind, updater scenarios)
+    "quick": (["MC_Explorer_sets_quick.cfg", "MC_Explorer_appenders_quick.cfg", "MC_Explorer_push_quick.cfg"], 25, 60, (4, 40, 6, 1500), (2, 25, 8), 8, 16),
+    "thorough": (["MC_Explorer_sets_thorough.cfg", "MC_Explorer_push_thorough.cfg", "MC_Explorer_push2_thorough.cfg"], 150, 1200, (6, 120, 12, 20000), (8, 60, 8), 60, 150),
 }
 
 ASSUME = [
@@ -49,7 +49,7 @@ ASSUME = [
 def run(prop, tier, replay=None):
     t0 = time.time()
     work = vlib.scratch(prop)
-    mcs, ntlc, ngen, ham, aham, nheld = PLAN[tier]
+    mcs, ntlc, ngen, ham, aham, nheld, nupd = PLAN[tier]
     seed = vlib.seed()
     mc_states = mc_trans = 0
     mc_info = {}
@@ -80,7 +80,7 @@ def run(prop, tier, replay=None):
         print("TLC negative control: appenders that check before they lock violate ListIsChainPrefix in the model (expected)")
         rnd = random.Random("explorer-hammer-%d" % seed)
         sets = fe.tlc_scenarios(work, ntlc, seed, "sets") + fe.gen_scenarios(seed, ngen, "sets") + [fe.hammer_scenario(rnd, *ham, mode=m) for m in ("lookup", "current")] + [fe.append_hammer_scenario(rnd, aham[1], aham[2]) for _ in range(aham[0])]
-        sets += fe.held_scenarios(seed, nheld, "sets")
+        sets += fe.held_scenarios(seed, nheld, "sets") + fe.updater_scenarios(seed, nupd)
         push = fe.tlc_scenarios(work, ntlc, seed, "push") + fe.gen_scenarios(seed, ngen, "push") + fe.held_scenarios(seed, nheld, "push")
     for i, s in enumerate(sets + push):
         s["tid"] = i + 1
@@ -110,9 +110,17 @@ def run(prop, tier, replay=None):
         if racesigs[sig] == 0:
             verdict.add(sig, {"kind": "race detector report", "report": text})
         racesigs[sig] += 1
+    panics = Counter()
+    for ln in lines:
+        if ln["ev"] == "Panic":      # a call into the code under test panicked (recovered by the harness)
+            sig = fe.panic_signature(ln)
+            if panics[sig] < 5:
+                verdict.add(sig, {"kind": "panic in the code under test", "call": ln["a"].get("call"), "value": ln["a"].get("value"),
+                                  "scenario_init": {k: v for k, v in (by_tid.get(ln["t"]) or {}).get("init", {}).items() if k != "chain"}})
+            panics[sig] += 1
     rejects = Counter()
     for t, bad in sorted(first_bad.items()):
-        if bad is None:
+        if bad is None or bad["ev"] == "Panic":
             continue
         sig = fe.classify_reject(by_t[t], bad, by_tid.get(t))
         rejects[sig] += 1
@@ -163,7 +171,10 @@ def run(prop, tier, replay=None):
                 "or index relative to the list, outcome, queue fill / list length) classes",
         "mc_configs": mc_info, "trace_spec_states": r["distinct"], "events": dict(acts),
         "push_outcomes_by_class": dict(outs), "guardian_set_sizes": {str(k): v for k, v in sorted(sizes.items())},
-        "race_reports": dict(racesigs), "rejected_lines": dict(rejects), "traces_fully_explained": len(first_bad) - nrej,
+        "race_reports": dict(racesigs), "panics_recovered": dict(panics),
+        "updater_ticks": {"went_through": sum(1 for ln in lines if ln["ev"] == "AppendCall" and ln["a"].get("tick")),
+                          "fetch_failed": sum(1 for ln in lines if ln["ev"] == "TickFailed"),
+                          "startup_from_chain": sum(1 for s in by_tid.values() if s["init"].get("startup"))}, "rejected_lines": dict(rejects), "traces_fully_explained": len(first_bad) - nrej,
         "hammer": dict(zip(("readers", "logged_ops_per_reader", "appends", "free_ops_per_reader"), ham)),
         "append_hammer": dict(zip(("instances", "rounds", "max_concurrent_appenders"), aham),
                               concurrent_append_calls=sum(1 for t, tl in by_t.items() if by_tid.get(t, {}).get("src") == "append-hammer"
